@@ -12,6 +12,7 @@ func init() {
 	generators["C19"] = func(tier, out string, sum *Summary) {
 		genSpecCases("C19", tier, out, sum, &Gen{Lets: true, Funcs: true, letBias: true}, 3)
 		c19Direct(sum)
+		extraTextCases("C19", tier, out, sum, false, true)
 	}
 }
 
